@@ -420,6 +420,9 @@ class Component( ComponentLevel7 ):
         x._dsl.full_name = "<deleted>"+x._dsl.full_name
       for y in removed_consts:
         del y._dsl.parent_obj
+        # The constants of the removed components go away with them
+        if y in top._dsl.all_adjacency:
+          del top._dsl.all_adjacency[y]
 
       # We don't break nets anymore. Instead, we set the flags to true so
       # that the next get_xxx_net will immediately recollect nets.
